@@ -327,7 +327,17 @@ def step(history):
             raise
         except Exception as e:
             viols.append((f"C14:render-error:after-{lastk}:{type(e).__name__}", f"history {list(history)}: {e!r}", case))
+        # the search key pairs the state of the real object with the state of the reference model: two
+        # histories are merged only if BOTH agree, so an implementation state that silently drifted from
+        # the model (without an observable difference yet) is still expanded
+        model_key = (
+            tuple(("f" if r in ("f0", "f1") else r, i) for r, i in model.held),
+            tuple("f" if r in ("f0", "f1") else r for r, _ in model.skipped),
+            tuple(model.allowed),
+            tuple(model.required),
+        )
         key = (
+            model_key,
             tuple(got_held),
             tuple(rid_of(r) for r in net._skipped_reactions),
             tuple(net.allowed_species),
@@ -451,7 +461,7 @@ def run(ctx):
     states = sum(r.states for r in results.values())
     trans = sum(r.transitions for r in results.values())
     ctx.assumptions += [
-        "a state is the operation history; canonical key = (held reaction ids+indices in order, skipped ids in order, allowed list, required list, cached reactant set, cached product set) - the cached sets are part of the key, so merged states have equal futures even where those sets are stale",
+        "a state is the operation history; canonical key = (reference-model state, real-object state) where the real-object part is (held reaction ids+indices in order, skipped ids in order, allowed list, required list, cached reactant set, cached product set): histories are merged only when model AND implementation agree, so merged states have equal futures even where the implementation has silently drifted",
         "operations are atomic public API calls on a fresh real Network replayed from the history; 'append depletion/desorption' is the loop body of ExtendCommand.handle with the species iterated in name order",
         "reaction equality of the reference: same reactant/product multisets, same window, same type (pool classes A..G)",
         "the invariant is evaluated on every (state, incoming transition), not once per merged state",
